@@ -23,14 +23,14 @@ members to typed unknowns true of the replaced part.
 -/
 import CtyModel.Props.C11
 import CtyModel.Lemmas.CoversWeaken
+import CtyModel.Lemmas.C12Funcs
 namespace CtyModel
 namespace C12
 open Fn Std
 
 /-- A `Type` callback is monotone w.r.t. weakening: on an argument list that admits the
 concrete one it does not fail and its answer admits the concrete answer. -/
-def TypeMonoW (tf : TypeFn) : Prop :=
-  ∀ os ws t, coversAll ws os = true → tf os = .ok t → ∃ t', tf ws = .ok t' ∧ C11.Admits t' t
+def TypeMonoW (tf : TypeFn) : Prop := C12L.TypeMonoW tf
 
 /-- `function.StaticReturnType(T)` is monotone. -/
 theorem static_typeMonoW (T : Ty) : TypeMonoW (C11.staticType T) :=
@@ -178,6 +178,153 @@ theorem known_args_reach_impl (spec : Spec) (tf : TypeFn) (impl : ImplFn) (args 
   have := hk v hvm
   simp [Param.blocksUnknown, this] at hb
 
+/-! ### clause 1: weakening cannot turn a successful call into a failure (framework half) -/
+
+/-- every weakened argument keeps the type of the argument it weakens or is typed by the placeholder
+(`cty.DynamicVal`) — what the weakenings of the property's quantifier (`Weaken`) do -/
+def TyKept := C12L.TyKept
+
+/-- `Impl` was invoked on `(as, rt)` and did not hand back a value conforming to `rt` -/
+def ImplFailsAt := C12L.ImplFailsAt
+
+/-- **No failure before `Impl`** — for ALL specs and callbacks.  The concrete call succeeded; the
+weakened arguments admit the concrete ones (`coversAll`), keep their types or take the placeholder
+(`TyKept`), nothing is marked, and the `Type` callback is monotone.  Then the weakened call is not an
+argument-count error, not an `ArgError`, not an error or panic of `Type`: it returns a value — unless
+`Impl` itself is reached, on exactly the weakened arguments, and fails there. -/
+theorem no_failure_before_impl (spec : Spec) (tf : TypeFn) (impl : ImplFn) (os ws : List Value) (r : Value)
+    (hm : TypeMonoW tf)
+    (hmo : ∀ a ∈ os, a.containsMarked = false) (hmw : ∀ a ∈ ws, a.containsMarked = false)
+    (hcov : coversAll ws os = true) (hty : TyKept ws os)
+    (hr : (callUnrefined spec tf impl os).1 = .ok r) :
+    (∃ r', (callUnrefined spec tf impl ws).1 = .ok r') ∨
+    (∃ rt, tf ws = .ok rt ∧ Event.impl ws rt ∈ (callUnrefined spec tf impl ws).2 ∧ ImplFailsAt impl ws rt) :=
+  C12L.no_failure_unrefined spec tf impl os ws r hm hmo hmw hcov hty hr
+
+/-- the weakenings of the quantifier satisfy `TyKept`, position by position -/
+theorem weaken_keeps_type {o w : Value} (h : Weaken o w) : w.ty = o.ty ∨ w.ty.isDyn = true :=
+  C12L.weaken_tyKept h
+
+/-- Instance for the stdlib: every function of the regenerated parameter table whose source says
+`Type: function.StaticReturnType(T)`, whatever its `Impl` does. -/
+theorem stdlib_static_no_failure (s : Generated.StdSpec) (_hs : s ∈ Generated.stdlibSpecs) (T : Ty)
+    (impl : ImplFn) (os ws : List Value) (r : Value)
+    (hmo : ∀ a ∈ os, a.containsMarked = false) (hmw : ∀ a ∈ ws, a.containsMarked = false)
+    (hcov : coversAll ws os = true) (hty : TyKept ws os)
+    (hr : (callUnrefined (toSpec s) (C11.staticType T) impl os).1 = .ok r) :
+    (∃ r', (callUnrefined (toSpec s) (C11.staticType T) impl ws).1 = .ok r') ∨
+    (∃ rt, Event.impl ws rt ∈ (callUnrefined (toSpec s) (C11.staticType T) impl ws).2 ∧ ImplFailsAt impl ws rt) := by
+  rcases no_failure_before_impl _ _ impl os ws r (static_typeMonoW T) hmo hmw hcov hty hr with h | ⟨rt, _, h2, h3⟩
+  · exact Or.inl h
+  · exact Or.inr ⟨rt, h2, h3⟩
+
+/-! ### clause 2 through the declared refinement: `RefineResult: refineNonNull` keeps soundness -/
+
+/-- the top of the payload has the Go kind its type prescribes and collection lengths fit a Go `int`
+(representation invariants of `cty.Value`; property C06) -/
+def fitsTop := C12L.fitsTop
+
+/-- **All refinement kinds.**  If the unknown `⟨t, ρ⟩` — `ρ` a nullable, string-prefix, numeric-bounds or
+length-bounds refinement, or none — admits the known, non-null, mark-free value `r`, then so does what
+`refineNonNull` makes of it, including the collapses of `NewValue` (equal inclusive bounds → the number;
+length 0 → the empty collection; a list of known length → a list of unknowns; a set of length 1). -/
+theorem notNull_unknown_covers_all_kinds (t : Ty) (ρ : Rfn) (r : Value) (w : Payload)
+    (h : Stdlib.refineNN ⟨t, .unk ρ⟩ = some w) (hcl : r.containsMarked = false) (hfit : fitsTop r.ty r.v = true)
+    (hc : Covers ⟨t, .unk ρ⟩ r = true) : Covers ⟨t, w⟩ r = true :=
+  C12L.covers_refineNN_unk t ρ r w h hcl hfit hc
+
+/-- `val.RefineWith(refineNonNull)` keeps `Covers`, whatever `val` is (known or unknown) -/
+theorem refineNonNull_keeps_covers (u r w : Value) (hum : u.v.isMarked = false)
+    (hud : u.ty.isDyn = false ∨ u.isKnown = false)
+    (hcl : r.containsMarked = false) (hfit : fitsTop r.ty r.v = true)
+    (hc : Covers u r = true) (hw : refineWith Stdlib.refineNN u = .ok w) : Covers w r = true :=
+  C12L.refineWith_covers u r w hum hud hcl hfit hc hw
+
+/-- **Post-refinement soundness through `Call`.**  A function declaring `RefineResult: refineNonNull`:
+if before the refinement the weakened outcome `u` admits the concrete outcome `r` (known, not null),
+then `Call` on the concrete arguments returns `r` and every value `Call` returns on the weakened
+arguments admits it. -/
+theorem call_refined_covers (spec : Spec) (tf : TypeFn) (impl : ImplFn) (os ws : List Value) (r u : Value)
+    (hrf : spec.refine = some Stdlib.refineNN)
+    (ho : (callUnrefined spec tf impl os).1 = .ok r) (hu : (callUnrefined spec tf impl ws).1 = .ok u)
+    (hum : u.v.isMarked = false) (hud : u.ty.isDyn = false ∨ u.isKnown = false)
+    (hcl : r.containsMarked = false) (hfit : fitsTop r.ty r.v = true) (hd : r.ty.isDyn = false)
+    (hc : Covers u r = true) :
+    (call spec tf impl os).1 = .ok r ∧ ∀ w, (call spec tf impl ws).1 = .ok w → Covers w r = true :=
+  C12L.call_refined_covers spec tf impl os ws r u hrf ho hu hum hud hcl hfit hd hc
+
+/-- the short-circuit and the refinement together: the framework's unknown, refined not-null, admits the
+concrete result of a function declaring `refineNonNull` -/
+theorem framework_shortcircuit_refined_sound (spec : Spec) (tf : TypeFn) (impl : ImplFn) (os ws : List Value)
+    (r u : Value) (hrf : spec.refine = some Stdlib.refineNN) (hT : C10.TypeFnWF tf) (hm : TypeMonoW tf)
+    (hmo : ∀ a ∈ os, a.containsMarked = false) (hmw : ∀ a ∈ ws, a.containsMarked = false)
+    (hdyn : ∀ a ∈ os, a.ty.isDyn = false)
+    (hcov : coversAll ws os = true) (hrwf : Ty.wf r.ty = true)
+    (hr : (callUnrefined spec tf impl os).1 = .ok r)
+    (hu : (callUnrefined spec tf impl ws).1 = .ok u)
+    (hno : ∀ as rt, Event.impl as rt ∉ (callUnrefined spec tf impl ws).2)
+    (hum : u.v.isMarked = false) (hud : u.ty.isDyn = false ∨ u.isKnown = false)
+    (hcl : r.containsMarked = false) (hfit : fitsTop r.ty r.v = true) (hd : r.ty.isDyn = false) :
+    (call spec tf impl os).1 = .ok r ∧ ∀ w, (call spec tf impl ws).1 = .ok w → Covers w r = true :=
+  call_refined_covers spec tf impl os ws r u hrf hr hu hum hud hcl hfit hd
+    (framework_shortcircuit_sound spec tf impl os ws r u hT hm hmo hmw hdyn hcov hrwf hr hu hno)
+
+/-! ### unknown branches of the modelled `Impl`s (tied to the code by the C12 correspondence) -/
+
+/-- `compact`: a list argument that is not wholly known is answered by the unknown of the result type,
+which admits every concrete result of a matching type. (`_partial`: the branch condition is explicit.) -/
+theorem sound_compact_partial (E : Stdlib.Env) (w : Value) (rest : List Value) (rt : Ty) (r : Value)
+    (hw : w.whollyKnown = false) (hm : Ty.matches rt r.ty = true) :
+    ∃ r', Stdlib.compactImpl E (w :: rest) rt = .ok r' ∧ Covers r' r = true :=
+  ⟨_, C12L.compact_unknown_branch E w rest rt hw, C12L.unknown_covers_of_matches rt r hm⟩
+
+/-- `reverse` of a set that holds an unknown member (/repo 54de46d): unknown of the result type -/
+theorem sound_reverse_set_partial (E : Stdlib.Env) (e : Ty) (p : Payload) (rest : List Value) (rt : Ty) (r : Value)
+    (hpm : p.isMarked = false) (hw : p.whollyKnown = false) (hm : Ty.matches rt r.ty = true) :
+    ∃ r', Stdlib.reverseImpl E (⟨.set e, p⟩ :: rest) rt = .ok r' ∧ Covers r' r = true :=
+  ⟨_, C12L.reverse_set_unknown_branch E e p rest rt hpm hw, C12L.unknown_covers_of_matches rt r hm⟩
+
+/-- `coalesce` / `coalescelist`: an unknown first argument is answered by the unknown of the result type -/
+theorem sound_coalesce_partial (E : Stdlib.Env) (w : Value) (rest : List Value) (rt : Ty) (r : Value)
+    (hw : w.isKnown = false) (hm : Ty.matches rt r.ty = true) :
+    (∃ r', Stdlib.coalesceImpl E (w :: rest) rt = .ok r' ∧ Covers r' r = true) ∧
+    (∃ r', Stdlib.coalesceListImpl (w :: rest) rt = .ok r' ∧ Covers r' r = true) :=
+  ⟨⟨_, C12L.coalesce_unknown_branch E w rest rt hw, C12L.unknown_covers_of_matches rt r hm⟩,
+   ⟨_, C12L.coalescelist_unknown_branch w rest rt hw, C12L.unknown_covers_of_matches rt r hm⟩⟩
+
+/-! ### wholly known in, wholly known out -/
+
+/-- **Through `Call`, for all specs and callbacks**: wholly known, mark-free arguments reach `Impl`
+untouched and what `Call` returns (before the declared refinement) is what `Impl` returned — or it is
+`cty.DynamicVal`, which happens only for an argument of the placeholder type (the null of that type is
+"wholly known": the recorded C01 finding null-of-dynamic-type-operand). -/
+theorem known_args_impl_value (spec : Spec) (tf : TypeFn) (impl : ImplFn) (args : List Value) (r : Value)
+    (hk : ∀ a ∈ args, a.whollyKnown = true) (hm : ∀ a ∈ args, a.containsMarked = false)
+    (hr : (callUnrefined spec tf impl args).1 = .ok r) :
+    r = Value.unknown .dyn ∨ ∃ rt, tf args = .ok rt ∧ impl args rt = .ok r :=
+  C12L.known_args_impl_value spec tf impl args r hk hm hr
+
+/-- so an `Impl` that keeps wholly-known-ness gives a `Call` that does -/
+theorem known_in_known_out (spec : Spec) (tf : TypeFn) (impl : ImplFn) (args : List Value) (r : Value)
+    (hi : C12L.ImplKnownOut impl)
+    (hk : ∀ a ∈ args, a.whollyKnown = true) (hm : ∀ a ∈ args, a.containsMarked = false)
+    (hr : (callUnrefined spec tf impl args).1 = .ok r) :
+    r.whollyKnown = true ∨ r = Value.unknown .dyn := by
+  rcases known_args_impl_value spec tf impl args r hk hm hr with h | ⟨rt, _, h⟩
+  · exact Or.inr h
+  · exact Or.inl (hi args rt r hk h)
+
+/-- `hasindex` (a wrapper of `Value.HasIndex`, C01): wholly known in, wholly known out -/
+theorem known_in_known_out_hasindex (c k r : Value) (hc : c.whollyKnown = true) (hk : k.whollyKnown = true)
+    (hmc : c.containsMarked = false) (hmk : k.containsMarked = false) (htc : c.ty ≠ .dyn) (htk : k.ty ≠ .dyn)
+    (hr : (callUnrefined Stdlib.hasIndexSpec Stdlib.hasIndexType Stdlib.hasIndexImpl [c, k]).1 = .ok r) :
+    r.whollyKnown = true ∨ r = Value.unknown .dyn := by
+  rcases known_args_impl_value _ _ _ [c, k] r (by intro a ha; simp at ha; rcases ha with rfl | rfl <;> assumption)
+    (by intro a ha; simp at ha; rcases ha with rfl | rfl <;> assumption) hr with h | ⟨rt, _, h⟩
+  · exact Or.inr h
+  · left
+    exact hasIndex_known_partial c k r hc hk htc htk h
+
 /-! ### the hypotheses are satisfiable -/
 
 example : TypeMonoW (C11.staticType (.list .string)) := static_typeMonoW _
@@ -185,6 +332,40 @@ example : coversAll [Value.unknown .number, ⟨.string, .s "a"⟩] [⟨.number, 
   decide
 example : Covers ⟨.bool, .unk (.nullable .f)⟩ ⟨.bool, .b true⟩ = true :=
   notNull_unknown_covers .bool ⟨.bool, .b true⟩ (by decide) (by decide) (by decide) (by decide) (by intro w h; cases h)
+
+/-! A joint witness: ALL hypotheses of `no_failure_before_impl` at once, with a spec that has a parameter
+refusing unknowns and one accepting them, a dynamically typed parameter, and a `Type` callback; the
+weakened call short-circuits (first argument unknown). -/
+def exSpec : Spec :=
+  { params := [{ ty := .number }, { ty := .list .bool, allowUnknown := true }],
+    varParam := some { ty := .dyn, allowDynamic := true, allowUnknown := true } }
+def exImpl : ImplFn := fun as _ => .ok ⟨.bool, .b (as.length == 3)⟩
+def exOs : List Value :=
+  [⟨.number, .n (.fin false 1 0 64)⟩, ⟨.list .bool, .seq [.b true]⟩, ⟨.list .bool, .seq [.b true, .b false]⟩]
+def exWs : List Value :=
+  [Value.unknown .number, ⟨.list .bool, .unk (.coll .f 1 3)⟩, ⟨.list .bool, .seq [.unk .unref, .b false]⟩]
+
+example :
+    TypeMonoW (C11.staticType .bool) ∧
+    (∀ a ∈ exOs, a.containsMarked = false) ∧ (∀ a ∈ exWs, a.containsMarked = false) ∧
+    coversAll exWs exOs = true ∧ TyKept exWs exOs ∧
+    (callUnrefined exSpec (C11.staticType .bool) exImpl exOs).1 = .ok ⟨.bool, .b true⟩ ∧
+    (∃ r', (callUnrefined exSpec (C11.staticType .bool) exImpl exWs).1 = .ok r') := by
+  refine ⟨static_typeMonoW _, by decide, by decide, by decide, ⟨Or.inl rfl, Or.inl rfl, Or.inl rfl, trivial⟩, by rfl, ⟨_, rfl⟩⟩
+
+/-- and one in which `Impl` IS reached on partly unknown arguments (both parameters accept unknowns) -/
+example :
+    (callUnrefined { exSpec with params := [{ ty := .number, allowUnknown := true }, { ty := .list .bool, allowUnknown := true }] }
+      (C11.staticType .bool) exImpl exWs).1 = .ok ⟨.bool, .b true⟩ := by rfl
+
+example : Covers ⟨.list .bool, .unk (.coll .u 1 3)⟩ ⟨.list .bool, .seq [.b true, .b false]⟩ = true ∧
+    Stdlib.refineNN ⟨.list .bool, .unk (.coll .u 1 3)⟩ = some (.unk (.coll .f 1 3)) ∧
+    fitsTop (.list .bool) (.seq [.b true, .b false]) = true := by
+  refine ⟨by decide, by rfl, by decide⟩
+
+/-- a numeric collapse: bounds `[2, 2]` become the known number 2, which still admits 2 -/
+example : Stdlib.refineNN ⟨.number, .unk (.num .u (some ⟨.fin false 2 0 64, true⟩) (some ⟨.fin false 2 0 64, true⟩))⟩ =
+    some (.n (.fin false 2 0 64)) := by rfl
 
 end C12
 end CtyModel
